@@ -38,6 +38,7 @@ structure Inv (s : St) : Prop where
       (r = .failed ↔ s.st t = .failed) ∧ (r = .depFailed ↔ s.st t = .depFailed)
   failedFlag : ∀ t, s.st t = .failed → s.failed = true
   extStopped : s.ext = true → s.stopped = true
+  wtNotBuilding : ∀ i q d, s.qs i = some q → q.ph = .waitTarget d → q.building = false
 
 theorem inv_init : Inv c St.init := by
   constructor <;> simp [St.init, TS.rank, TS.terminal, TS.isBuilt]
@@ -60,8 +61,8 @@ theorem fresh_w {s : St} (hi : Inv c s) : s.ws s.nextW = none := by
 /-- the closing tactic: old clause verbatim, or case analysis on the updated indices with all old clauses at hand -/
 macro "inv_close" hi:ident : tactic =>
   `(tactic| (constructor <;> first
-      | exact ($hi).qFresh | exact ($hi).mFresh | exact ($hi).wFresh | exact ($hi).waitBuilding | exact ($hi).bqActive | exact ($hi).bqUnique | exact ($hi).bqWait | exact ($hi).chanPending | exact ($hi).chanUnique | exact ($hi).takenPending | exact ($hi).takenUnique | exact ($hi).chanTaken | exact ($hi).wBuilding | exact ($hi).wBuildingUnique | exact ($hi).notStopped | exact ($hi).starts0 | exact ($hi).starts1 | exact ($hi).depsDone | exact ($hi).finTerm | exact ($hi).nresFin | exact ($hi).resSome | exact ($hi).resKind | exact ($hi).failedFlag | exact ($hi).extStopped
-      | (intros; have := ($hi).qFresh; have := ($hi).mFresh; have := ($hi).wFresh; have := ($hi).waitBuilding; have := ($hi).bqActive; have := ($hi).bqUnique; have := ($hi).bqWait; have := ($hi).chanPending; have := ($hi).chanUnique; have := ($hi).takenPending; have := ($hi).takenUnique; have := ($hi).chanTaken; have := ($hi).wBuilding; have := ($hi).wBuildingUnique; have := ($hi).notStopped; have := ($hi).starts0; have := ($hi).starts1; have := ($hi).depsDone; have := ($hi).finTerm; have := ($hi).nresFin; have := ($hi).resSome; have := ($hi).resKind; have := ($hi).failedFlag; have := ($hi).extStopped
+      | exact ($hi).qFresh | exact ($hi).mFresh | exact ($hi).wFresh | exact ($hi).waitBuilding | exact ($hi).bqActive | exact ($hi).bqUnique | exact ($hi).bqWait | exact ($hi).chanPending | exact ($hi).chanUnique | exact ($hi).takenPending | exact ($hi).takenUnique | exact ($hi).chanTaken | exact ($hi).wBuilding | exact ($hi).wBuildingUnique | exact ($hi).notStopped | exact ($hi).starts0 | exact ($hi).starts1 | exact ($hi).depsDone | exact ($hi).finTerm | exact ($hi).nresFin | exact ($hi).resSome | exact ($hi).resKind | exact ($hi).failedFlag | exact ($hi).extStopped | exact ($hi).wtNotBuilding
+      | (intros; have := ($hi).qFresh; have := ($hi).mFresh; have := ($hi).wFresh; have := ($hi).waitBuilding; have := ($hi).bqActive; have := ($hi).bqUnique; have := ($hi).bqWait; have := ($hi).chanPending; have := ($hi).chanUnique; have := ($hi).takenPending; have := ($hi).takenUnique; have := ($hi).chanTaken; have := ($hi).wBuilding; have := ($hi).wBuildingUnique; have := ($hi).notStopped; have := ($hi).starts0; have := ($hi).starts1; have := ($hi).depsDone; have := ($hi).finTerm; have := ($hi).nresFin; have := ($hi).resSome; have := ($hi).resKind; have := ($hi).failedFlag; have := ($hi).extStopped; have := ($hi).wtNotBuilding
          simp only [upd, Queuer.live] at * <;> grind [TS.rank, TS.terminal, TS.isBuilt, TS.isBad])))
 
 theorem spawn_inv {s : St} (hi : Inv c s) (t : T) (b f : Bool) (ns : TS)
@@ -96,6 +97,7 @@ theorem taskDone_inv {s : St} (hi : Inv c s) : Inv c (taskDone s) := by
   unfold taskDone
   inv_close hi
 
+set_option maxHeartbeats 1600000 in
 theorem queuer_inv {s s' : St} (hi : Inv c s) (i : Nat) (q : Queuer) (hq : s.qs i = some q)
     (h : queuerStep c s i q = some s') : Inv c s' := by
   unfold queuerStep at h
@@ -134,7 +136,24 @@ theorem queuer_inv {s s' : St} (hi : Inv c s) (i : Nat) (q : Queuer) (hq : s.qs 
     cases h
     apply taskDone_inv
     inv_close hi
+  · rename_i d hph
+    split at h
+    · cases h; inv_close hi
+    · cases h
 
+/-- after `queueResolvedTarget(t, forceBuild = true)` the target is at least Active -/
+theorem qrt_active' (s : St) (t : T) : TS.active.rank ≤ ((qrt c s t true).st t).rank := by
+  unfold qrt spawn
+  cases hs : s.st t <;> simp_all [TS.rank, upd]
+
+/-- … and it is not in a terminal state unless it was before -/
+theorem qrt_nonterminal (s : St) (t : T) (h : ¬ ((s.st t).isBuilt || (c.lateOK && (s.st t).isBad)) = true) :
+    c.lateOK = true → ((qrt c s t true).st t).terminal = false := by
+  intro hl
+  unfold qrt spawn
+  cases hs : s.st t <;> simp_all [TS.rank, upd, TS.terminal, TS.isBuilt, TS.isBad]
+
+set_option maxHeartbeats 1600000 in
 theorem step_inv {s s' : St} (hi : Inv c s) (h : Step c s s') : Inv c s' := by
   obtain ⟨a, h⟩ := h
   cases a with
@@ -191,6 +210,24 @@ theorem step_inv {s s' : St} (hi : Inv c s) (h : Step c s s') : Inv c s' := by
     · cases h
     · cases h; apply taskDone_inv; inv_close hi
   | stop => simp only [fire] at h; cases h; inv_close hi
+  | subWait t =>
+    simp only [fire] at h
+    split at h
+    · rename_i hg
+      split at h
+      · cases h; inv_close hi
+      · rename_i hnb
+        cases h
+        have h1 := qrt_inv c hi t true
+        have hq1 := fresh_q c h1
+        generalize qrt c s t true = s1 at h1 hq1
+        inv_close h1
+    · cases h
+  | cycleCheck =>
+    simp only [fire] at h
+    split at h
+    · cases h; inv_close hi
+    · cases h
 
 theorem reach_inv {s : St} (h : Reach c s) : Inv c s := by
   induction h with
